@@ -632,11 +632,27 @@ class IH5Group(IH5InnerNode):
             return n  # existing group
         return self.create_group(name)
 
-    def require_dataset(self, name: str, *args, **kwds) -> IH5Dataset:
+    def require_dataset(
+        self, name: str, shape=None, dtype=None, exact: bool = False, **kwds
+    ) -> IH5Dataset:
         if (n := self._require_node(name, IH5Dataset)) is not None:
-            # TODO: check dimensions etc, copy into patch if it fits
+            # an existing dataset must fit the request (same rules as h5py)
+            raw = n._files[n._cidx][n._gpath]  # underlying h5py dataset
+            if shape is not None:
+                shape = (shape,) if isinstance(shape, int) else tuple(shape)
+                if shape != raw.shape:
+                    msg = f"Shapes do not match (existing {raw.shape} vs new {shape})"
+                    raise TypeError(msg)
+            if dtype is not None:
+                dtype = np.dtype(dtype)
+                if exact and dtype != raw.dtype:
+                    msg = f"Datatypes do not exactly match (existing {raw.dtype} vs new {dtype})"
+                    raise TypeError(msg)
+                if not exact and not np.can_cast(dtype, raw.dtype):
+                    msg = f"Datatypes cannot be safely cast (existing {raw.dtype} vs new {dtype})"
+                    raise TypeError(msg)
             return n
-        return self.create_dataset(name, *args, **kwds)
+        return self.create_dataset(name, shape=shape, dtype=dtype, **kwds)
 
     def copy(self, source: CopySource, dest: CopyDest, **kwargs):
         src_node = self[source] if isinstance(source, str) else source
